@@ -39,7 +39,8 @@ async fn outcome<R: Responder>(r: R, req: &HttpRequest) -> (u16, String) {
     let resp: HttpResponse<_> = r.respond_to(req).map_into_boxed_body();
     let status = resp.status().as_u16();
     let bytes = actix_web::body::to_bytes(resp.into_body()).await.unwrap_or_default();
-    (status, String::from_utf8_lossy(&bytes).to_string())
+    let text: String = String::from_utf8_lossy(&bytes).chars().map(|c| if c.is_control() || c == '\u{fffd}' { '.' } else { c }).collect();
+    (status, text)
 }
 
 fn refused(o: &(u16, String)) -> bool {
